@@ -4,6 +4,6 @@ CONSTANTS NKeys = 3  NLevels = 3  Settings = {1, 2, 3, 4, 7, 9, 10}  SmallLen = 
   Dev_MajorPicksPastPartialLevel = FALSE  Dev_WriteRunEmptyTable = FALSE
   RandomFlush = FALSE  Record = FALSE  MaxLen = 1000
 INVARIANTS ReadsMatchTruth TruthRetained LayoutValid NewerAboveOlder TypeOK
-PROPERTIES CompactionPreservesContents
+PROPERTIES CompactionPreservesContents OnlyFlushAndSwapChangeLayout
 VIEW view
 CHECK_DEADLOCK FALSE
